@@ -288,3 +288,21 @@ pub fn sexp_to_value(x: &Sexp) -> Result<Value, String> {
         _ => return Err(format!("unknown value tag {t}")),
     })
 }
+
+/// Structural equality of two values with floats compared by bit pattern (NaN equals the same NaN) and
+/// maps compared by key.
+pub fn same_value(a: &Value, b: &Value) -> bool {
+    match (a, b) {
+        (Value::Float(x), Value::Float(y)) => x.to_bits() == y.to_bits(),
+        (Value::Double(x), Value::Double(y)) => x.to_bits() == y.to_bits(),
+        (Value::Union(i, x), Value::Union(j, y)) => i == j && same_value(x, y),
+        (Value::Array(x), Value::Array(y)) => x.len() == y.len() && x.iter().zip(y).all(|(p, q)| same_value(p, q)),
+        (Value::Map(x), Value::Map(y)) => {
+            x.len() == y.len() && x.iter().all(|(k, p)| y.get(k).is_some_and(|q| same_value(p, q)))
+        }
+        (Value::Record(x), Value::Record(y)) => {
+            x.len() == y.len() && x.iter().zip(y).all(|((k, p), (l, q))| k == l && same_value(p, q))
+        }
+        _ => a == b,
+    }
+}
